@@ -9,6 +9,8 @@ import PanqecVerif.Proofs.SweepGeneric
 
 namespace Panqec.Sweep
 
+set_option linter.unusedSimpArgs false
+
 /-! ### ranges and nested loops -/
 
 theorem mem_range2 (a b x : Int) : x ∈ range2 a b ↔ a ≤ x ∧ x < b ∧ (x - a) % 2 = 0 := by
